@@ -123,7 +123,13 @@ pub fn build_case(profile_name: &str, mode: Mode, seed: u64, case: u64) -> Case 
             let n = rng.range(3, 5);
             let mut thr = vec![];
             for _ in 0..n {
-                let c = TreeCfg::random(&mut rng, Some(false));
+                let mut c = TreeCfg::random(&mut rng, Some(false));
+                if profile.name == "dense" {
+                    // large blocks, dense restart points: hundreds of restart intervals per block
+                    c.block_size = vec![*rng.pick(&[4096, 16_384, 65_536])];
+                    c.restart = vec![*rng.pick(&[1, 1, 2, 16])];
+                    c.hash_ratio = vec![*rng.pick(&[0.0, 0.75, 8.0])];
+                }
                 thr.extend(c.thresholds());
                 cfgs.push(c);
             }
